@@ -1120,6 +1120,19 @@ class Explorer:
                 out[name] = _val_of(m.eval(t, model_completion=True))
             except Exception:
                 out[name] = None
+        # an input used as an angle: the model fixes its (cos, sin) symbols, not the angle itself; the replay needs an angle
+        # with that cosine and sine
+        by_id = {t.get_id(): name for name, t in self.inputs.items()}
+        for (t, c, s_) in self.trig.values():
+            name = by_id.get(t.get_id())
+            if name is None:
+                continue
+            try:
+                cv = float(_val_of(m.eval(c.t, model_completion=True)))
+                sv = float(_val_of(m.eval(s_.t, model_completion=True)))
+                out[name] = math.atan2(sv, cv)
+            except Exception:
+                pass
         return out
 
     def _generic_inputs(self):
@@ -1362,6 +1375,50 @@ class Explorer:
     budget_is_violation = False     # True for obligations whose subject is termination (k-d tree construction)
     ob_required = True
 
+    _var_memo = None
+
+    def _vars_of(self, expr):
+        memo = self._var_memo
+        if memo is None:
+            memo = self._var_memo = {}
+        k = expr.get_id()
+        hit = memo.get(k)
+        if hit is not None:
+            return hit[1]
+        out = set()
+        stack = [expr]
+        seen = set()
+        while stack:
+            x = stack.pop()
+            i = x.get_id()
+            if i in seen:
+                continue
+            seen.add(i)
+            if z3.is_const(x):
+                if x.decl().kind() == z3.Z3_OP_UNINTERPRETED:
+                    out.add(x.decl().name())
+            else:
+                stack.extend(x.children())
+        memo[k] = (expr, frozenset(out))     # (the expression is kept alive: ids are reused otherwise)
+        return memo[k][1]
+
+    def _cone(self, constraints, term):
+        want = set(self._vars_of(term))
+        if not want:
+            return list(constraints)
+        items = [(c, self._vars_of(c)) for c in constraints]
+        picked = [False] * len(items)
+        changed = True
+        while changed:
+            changed = False
+            for i, (c, vs) in enumerate(items):
+                if not picked[i] and (vs & want):
+                    picked[i] = True
+                    if not vs <= want:
+                        want |= vs
+                        changed = True
+        return [c for i, (c, vs) in enumerate(items) if picked[i]]
+
     def _backtrack(self):
         """prepare the stack for the next path; False when the tree is exhausted"""
         st = self.stack
@@ -1381,7 +1438,9 @@ class Explorer:
             e.tried.append(e.val)
             s = z3.Solver()
             s.set("timeout", self.qtimeout_ms)
-            for c in self.pc[:e.pc_len]:
+            # only the constraints connected (through shared variables) to the concretised term matter: the rest of the
+            # prefix is variable-disjoint from them and was satisfiable on the path just walked
+            for c in self._cone(self.pc[:e.pc_len], e.term):
                 s.add(c)
             s.add(z3.And(*[e.term != v for v in e.tried]) if len(e.tried) > 1 else e.term != e.tried[0])
             t0 = time.time()
